@@ -16,16 +16,16 @@ func init() {
 		Level:       "other",
 		Explanation: "Decides the structural clauses of C10 on every path of the 9 engine action methods and the 9 hand-side single actions: the engine lock is held; the hand call is dominated by successful validation (status playing, known hand index) and a successful player-index lookup; every effect in the method (store to existing state, statistics, callbacks) is control-dependent on the hand call's success and the method returns that call's error; Player<X> calls Game.<X> and publishes the label of X for the caller's own id; each hand-side action validates first (current-player validator for wager actions and pass, allowed-action validator with its own action name for ready/pay) and touches nothing on failure; validator definitions are checked on every non-error exit. (R10) the delegation of 'the hand allows that action' to pokerface is checked at the pinned version: each of its player methods rejects a disallowed action, or the wrapper tests it itself. NOT decided: that pokerface computes the allowed-action lists correctly; remote backends; concurrency (see C16).",
 		Rules: map[string]string{
-			"R1": "engine mutex must-held at the hand call; entry Lock + deferred Unlock; no explicit Unlock",
-			"R2": "hand call dominated by validate(FindGamePlayerIdx(own id)) == nil and by player-index lookup != unset; index passed to the hand is that same lookup; the id → hand index look-ups answer exactly at the entry of the player asked for, and a departure during the hand re-maps the hand index list through the new player list without filtering the live list in place (as C02.R4/R5)",
-			"R3": "every effect in the method is guarded by the hand call's err == nil; every exit after the hand call returns that err",
-			"R4": "Player<X> invokes Game.<X>; published label equals the action constant of X",
-			"R5": "hand-side single action: validator call first with own index (and own action name); backend call / ready-group signal / state update dominated by validator success; a pay during ante or blind collection becomes the payer's own ready-group signal and never reaches the backend's pay, which acts for the current player (shared with C11.R5)",
-			"R6": "validator definitions: engine-side ok ⇒ status playing ∧ index set; current-player validator ok ⇒ player exists ∧ index == current player; allowed-action validator ok ⇒ player exists ∧ HasAction(index, action); each hand-side validator refuses only for one of its reasons",
+			"R1":  "engine mutex must-held at the hand call; entry Lock + deferred Unlock; no explicit Unlock",
+			"R2":  "hand call dominated by validate(FindGamePlayerIdx(own id)) == nil and by player-index lookup != unset; index passed to the hand is that same lookup; the id → hand index look-ups answer exactly at the entry of the player asked for, and a departure during the hand re-maps the hand index list through the new player list without filtering the live list in place (as C02.R4/R5)",
+			"R3":  "every effect in the method is guarded by the hand call's err == nil; every exit after the hand call returns that err",
+			"R4":  "Player<X> invokes Game.<X>; published label equals the action constant of X",
+			"R5":  "hand-side single action: validator call first with own index (and own action name); backend call / ready-group signal / state update dominated by validator success; a pay during ante or blind collection becomes the payer's own ready-group signal and never reaches the backend's pay, which acts for the current player (shared with C11.R5)",
+			"R6":  "validator definitions: engine-side ok ⇒ status playing ∧ index set; current-player validator ok ⇒ player exists ∧ index == current player; allowed-action validator ok ⇒ player exists ∧ HasAction(index, action); each hand-side validator refuses only for one of its reasons",
 			"R10": "the legality test delegated to the hand rules library exists: for each action X handed to the backend, pokerface's player.X returns an error on every path where CheckAction(x) is false, or else the hand wrapper itself tests HasAction(own index, x) before the backend call",
-			"R9": "the hand-state hook stores each new state in the table first and clears the published last action exactly at round close",
-			"R8": "the status the engine-side validator relies on (playing) is stored only after the hand's Start succeeded (shared with C07.R1)",
-			"R7": "last-action store is built from the caller's own id and player index and (wager actions, pass) followed by an action event carrying that same value; action record fields come from their parameters; the naming fields of the published action are filled whenever their source exists (only conditions: a hand state exists / the player index is in range)",
+			"R9":  "the hand-state hook stores each new state in the table first and clears the published last action exactly at round close",
+			"R8":  "the status the engine-side validator relies on (playing) is stored only after the hand's Start succeeded (shared with C07.R1)",
+			"R7":  "last-action store is built from the caller's own id and player index and (wager actions, pass) followed by an action event carrying that same value; action record fields come from their parameters; the naming fields of the published action are filled whenever their source exists (only conditions: a hand state exists / the player index is in range)",
 		},
 		Assumptions: []string{"pokerface CheckAction rejects disallowed wager actions of the current player (outside the repo)"},
 		Run:         checkC10,
